@@ -15,7 +15,34 @@ use crate::common::*;
 /// line breaks but are content for RFC 9580 section 7 (only space and tab are trimmed, only LF splits)
 const OTHERS: [&str; 7] = ["a", "\u{e9}", "\u{3000}", "\u{a0}", "\x0c", "\x0b", "\u{2028}"];
 
+/// the class "dash" stands for any run of dashes: representative "-----" (what an armor boundary line starts with). In the ESCAPED form the
+/// two symbols "D S" that open a line are the escape prefix "- " itself, everywhere else a dash symbol is the run.
+fn conc_dash5(sym: &[String], escaped_form: bool) -> String {
+    let mut out = String::new();
+    let mut i = 0;
+    let mut line_start = true;
+    while i < sym.len() {
+        let x = sym[i].as_str();
+        if escaped_form && line_start && x == "D" && sym.get(i + 1).map(|y| y == "S").unwrap_or(false) {
+            out.push_str("- ");
+            i += 2;
+            line_start = false;
+            continue;
+        }
+        match x {
+            "D" => out.push_str("-----"),
+            _ => out.push_str(&conc(&sym[i..i + 1], 0)),
+        }
+        line_start = x == "L";
+        i += 1;
+    }
+    out
+}
+
 fn conc(sym: &[String], variant: usize) -> String {
+    if variant == OTHERS.len() {
+        return conc_dash5(sym, false);
+    }
     let mut out = String::new();
     for b in concretize_text(sym, 0) {
         if b == b'a' { out.push_str(OTHERS[variant]) } else { out.push(b as char) }
@@ -53,15 +80,19 @@ pub fn run(cases_path: &str, out_path: &str, tier: &str, seed: u64) {
             nontrivial.fetch_add(1, std::sync::atomic::Ordering::Relaxed);
         }
         let ci = c["ci"].as_u64().unwrap_or(0) as usize;
-        for variant in 0..OTHERS.len() {
-            if variant >= 1 && !t.iter().any(|x| x == "X") {
+        for variant in 0..=OTHERS.len() {
+            let dash5 = variant == OTHERS.len();
+            if dash5 && !t.iter().any(|x| x == "D") {
                 continue;
             }
-            if variant >= 2 && !thorough && (ci + variant) % 2 != 0 {
+            if variant >= 1 && !dash5 && !t.iter().any(|x| x == "X") {
+                continue;
+            }
+            if variant >= 2 && !dash5 && !thorough && (ci + variant) % 2 != 0 {
                 continue;
             }
             let text = conc(&t, variant);
-            let want_text = conc(&escaped, variant);
+            let want_text = if dash5 { conc_dash5(&escaped, true) } else { conc(&escaped, variant) };
             let want_signed = conc(&signed, variant);
             let cj = json!({"ci": c["ci"], "t": t.join(""), "variant": variant});
             let fkey = if !representable { "cleartext_final_cr" } else { "cleartext" };
